@@ -228,6 +228,40 @@ def matrix(ctx, inp, text, fmt):
                         ctx.violation(f"dump:file-stream:{ofmt}:raises:{type(gerr).__name__}", case=case)
                 if fp.read_text() != expected and gerr is None:
                     ctx.violation(f"dump:file-stream:{ofmt}:text-differs-from-class-method", case=case)
+            # other writable text streams: a NamedTemporaryFile wrapper, a codecs stream, a user object with write()
+            case = inp + ("dump", "other-streams", oname, ofmt)
+            if ctx.want(case):
+                import codecs
+                import tempfile
+
+                class Sink:
+                    def __init__(self):
+                        self.parts = []
+
+                    def write(self, t):
+                        self.parts.append(t)
+                        return len(t)
+
+                ctx.count("cell.dump")
+                ctx.case(case, dkey=case, nontrivial=n_mols >= 2)
+                sink = Sink()
+                _, e = attempt(lambda: ml.dump(obj, sink, ofmt))
+                if e is not None or "".join(sink.parts) != expected:
+                    ctx.violation(f"dump:user-stream:{ofmt}:raises-or-text-differs", case=case, err=repr(e)[:150])
+                with tempfile.NamedTemporaryFile("w+", dir=ctx.tmp, suffix=".tmp") as tf:
+                    _, e = attempt(lambda: ml.dump(obj, tf, ofmt))
+                    ok = e is None and not tf.closed
+                    if ok:
+                        tf.seek(0)
+                        ok = tf.read() == expected
+                    if not ok:
+                        ctx.violation(f"dump:namedtemporaryfile:{ofmt}:raises-or-text-differs", case=case, err=repr(e)[:150])
+                cp = ctx.tmp / f"codecs-{oname}.{ofmt}"
+                with codecs.open(cp, "w", "utf-8") as cf_:
+                    _, e = attempt(lambda: ml.dump(obj, cf_, ofmt))
+                    closed = cf_.closed
+                if e is not None or closed or cp.read_text(encoding="utf-8") != expected:
+                    ctx.violation(f"dump:codecs-stream:{ofmt}:raises-or-text-differs", case=case, err=repr(e)[:150])
             # path targets: append by default, truncate with mode='w', fmt from suffix or explicit
             for tkind in ("Path", "str"):
                 case = inp + ("dump", tkind, oname, ofmt)
@@ -349,7 +383,7 @@ def run_cdxml(ctx):
                     ("ensemble", ml.ConformerEnsemble)):
         oname = oarg if isinstance(oarg, str) else oarg.__name__
         for name in (None, "Z"):
-            for key in [None] + keys[:6]:
+            for key in [None, 0, 1, len(keys) - 1] + keys[:6]:     # a key is a label or a position (CDXMLFile accepts both)
                 case = ("cdxml", oname, name, key)
                 if not ctx.want(case):
                     continue
@@ -369,8 +403,8 @@ def run_cdxml(ctx):
                     d = diff(sg, sw, rtol=1e-9, atol=1e-9)
                     if d:
                         ctx.violation(f"load:cdxml:{oname}:differs-from-CDXMLFile-getitem:{d[0][0].split('[')[0].strip('.')}", case=case, diff=d[:3])
-                    if name is None and got.name != key:
-                        ctx.violation(f"load:cdxml:{oname}:name-differs-from-label", case=case, got=got.name)
+                    if name is None and got.name != want.name:
+                        ctx.violation(f"load:cdxml:{oname}:name-differs-from-CDXMLFile-getitem", case=case, got=got.name, want=want.name)
                 if name is not None:
                     ctx.count("name-override.checked")
                     if got.name != name:
